@@ -513,3 +513,56 @@ Proof.
     + right. rewrite F11, F10. split; [rewrite Hh; lia | exact F15].
 Qed.
 End FlushCommitSim2.
+
+(** the journal stored by the commit, and the journals it leaves alone *)
+Section FlushCommitJournal.
+Variable e : env.
+
+Definition flush_entries0 (m : st) : list jentry :=
+  flat_map (fun x : N * (obj * option jentry) => match snd (snd x) with Some en => [en] | None => [] end)
+           (map (fun ao : N * obj => (fst ao, journal_of m (fst ao) (snd ao))) (s_objs m)).
+
+Lemma del_range_spec fuel : forall i l h,
+  aget h (del_range fuel i l) = if (i <=? h) && (h <? i + N.of_nat fuel) then None else aget h l.
+Proof.
+  induction fuel as [|n IH]; intros i l h.
+  - cbn [del_range]. replace (i + N.of_nat 0) with i by lia.
+    destruct (i <=? h) eqn:E1, (h <? i) eqn:E2; cbn [andb]; try reflexivity.
+    apply N.leb_le in E1. apply N.ltb_lt in E2. lia.
+  - cbn [del_range]. rewrite IH, aget_adel.
+    destruct (i + 1 <=? h) eqn:E1, (h <? i + 1 + N.of_nat n) eqn:E2, (i <=? h) eqn:E3, (h <? i + N.of_nat (S n)) eqn:E4,
+             (h =? i) eqn:E5; cbn [andb]; try reflexivity;
+      rewrite ?N.leb_le, ?N.leb_gt, ?N.ltb_lt, ?N.ltb_ge, ?N.eqb_eq, ?N.eqb_neq in *; lia.
+Qed.
+
+Lemma ftc_journals m h :
+  Inv m ->
+  let mc := flush_then_commit e m h in
+  let min1 := if s_min m =? 0 then h else s_min m in
+  let pr := (10 <? h) && (min1 <? h - 10) in
+  aget h (d_jnl (s_db mc)) = Some (mkJ (flush_entries0 m) (root_of e m)) /\
+  forall h', h' <> h -> (pr = true -> h - 10 <= h') -> aget h' (d_jnl (s_db mc)) = aget h' (d_jnl (s_db m)).
+Proof.
+  intro I. cbv zeta. unfold flush_then_commit, root_of, do_flush.
+  fold (flush_dirty m). rewrite (flush_dirty_eq m I). fold (flush_entries0 m).
+  cbn [fst snd]. unfold do_commit. cbn [s_pend s_db s_cache s_objs s_chg s_gen s_revs s_next s_prev s_min s_max s_bad].
+  fold (commit_fold (s_db m) (dirty_objs m)).
+  destruct (commit_fold_rest (s_db m) (dirty_objs m)) as [R1 [R2 [R3 R4]]].
+  { intros a o Hin. apply In_dirty_objs in Hin. destruct Hin as [Hin _].
+    pose proof (inv_objs m I a o (In_aget a o _ (inv_nd_objs m I) Hin)) as [_ _ _ _ [H1 [H2 _]]]. tauto. }
+  destruct ((10 <? h) && ((if s_min m =? 0 then h else s_min m) <? h - 10)) eqn:Epr; cbn [fst s_db d_jnl].
+  - apply andb_true_iff in Epr. destruct Epr as [E1 E2]. apply N.ltb_lt in E1, E2.
+    split.
+    + rewrite del_range_spec, N2Nat.id, aget_aput, N.eqb_refl.
+      destruct ((_ <=? h) && (h <? _)) eqn:E; [| reflexivity].
+      apply andb_true_iff in E. destruct E as [E3 E4]. apply N.ltb_lt in E4. lia.
+    + intros h' Hne Hge. specialize (Hge eq_refl).
+      rewrite del_range_spec, N2Nat.id, aget_aput, R2.
+      destruct ((_ <=? h') && (h' <? _)) eqn:E.
+      * apply andb_true_iff in E. destruct E as [E3 E4]. apply N.ltb_lt in E4. lia.
+      * destruct (h' =? h) eqn:E5; [apply N.eqb_eq in E5; contradiction | reflexivity].
+  - split; [rewrite aget_aput, N.eqb_refl; reflexivity|].
+    intros h' Hne _. rewrite aget_aput, R2.
+    destruct (h' =? h) eqn:E5; [apply N.eqb_eq in E5; contradiction | reflexivity].
+Qed.
+End FlushCommitJournal.
